@@ -42,7 +42,7 @@ def main(tier, replay=None):
         ref = E.clobber_reference(root, cfg, i, o, 1 if lg == "log" else 0)
         traces = [E.clobber_case({"tid": 1, "ref": ref, "root": root, "cfg": cfg, "in_fmt": i, "out_fmt": o, "log": 1 if lg == "log" else 0,
                                   "pre": tr["pre"], "clobber": tr["clobber"], "empty": 1 if "empty-files" in tr["cfg"] else 0, "rerun": 1 if "after-an-earlier-run" in tr["cfg"] else 0,
-                                  "same": 1 if "same-content" in tr["cfg"] else 0})]
+                                  "same": 1 if "same-content" in tr["cfg"] else 0, "dangling": 1 if "dangling-links" in tr["cfg"] else 0})]
         jr = C.judge("ClobberTrace", traces, run.dir, consts="N = 1 MaxPre = 1", spec="TraceSpec")
         C.finish(run, "C16", C.report(run, "C16", jr["V"], {1: traces[0]}))
     for k, (cfg, i, o, lg) in enumerate(plan["cfgs"]):
@@ -55,6 +55,9 @@ def main(tier, replay=None):
             scen.append({"ref": ref, "root": root, "cfg": cfg, "in_fmt": i, "out_fmt": o, "log": lg, "pre": ob["pre"], "clobber": ob["clobber"]})
             if ob["pre"] and (len(ob["pre"]) == 1 or tier == "thorough"):
                 scen.append({"ref": ref, "root": root, "cfg": cfg, "in_fmt": i, "out_fmt": o, "log": lg, "pre": ob["pre"], "clobber": ob["clobber"], "empty": 1})
+            # ... pre-existing paths that are dangling symbolic links (--no-clobber only: the statement's "unchanged" then means still dangling)
+            if ob["pre"] and ob["clobber"] == 0 and (len(ob["pre"]) == 1 or tier == "thorough") and not any(ref["outputs"][i - 1].endswith(".log") for i in ob["pre"]):
+                scen.append({"ref": ref, "root": root, "cfg": cfg, "in_fmt": i, "out_fmt": o, "log": lg, "pre": ob["pre"], "clobber": 0, "dangling": 1})
             # ... and pre-existing files that already hold exactly what the run would write (left by an earlier, identical run)
             if ob["pre"] and (len(ob["pre"]) <= 2 or tier == "thorough"):
                 scen.append({"ref": ref, "root": root, "cfg": cfg, "in_fmt": i, "out_fmt": o, "log": lg, "pre": ob["pre"], "clobber": ob["clobber"], "same": 1})
